@@ -20,6 +20,13 @@ type gcmAble interface {
 }
 
 func (sm4 *sm4CipherAsm) NewGCM(nonceSize, tagSize int) (cipher.AEAD, error) {
+	// crypto/cipher validates these before it dispatches here; a direct caller gets the same checks
+	if tagSize < gcmMinimumTagSize || tagSize > BlockSize {
+		return nil, errors.New("crypto/sm4: incorrect tag size given to GCM")
+	}
+	if nonceSize <= 0 {
+		return nil, errors.New("crypto/sm4: the nonce can't have zero length")
+	}
 	g := &sm4GcmAsm{
 		cipher:    sm4,
 		roundKeys: sm4.enc[:],
